@@ -194,7 +194,11 @@ class FakeRequests:
     resp.raw = urllib3.HTTPResponse(
         body=FaultyBody(body, self.plan), headers=headers,
         status=resp.status_code, preload_content=False, decode_content=False,
-        request_method='GET')
+        request_method='GET',
+        # (urllib3 1.x did not, and 2.x need not, compare what was read with the
+        # announced length: with 'lenient' a premature EOF is an ordinary short
+        # or EMPTY read instead of an IncompleteRead error)
+        enforce_content_length=not f.get('lenient', False))
     return resp
 
 
@@ -514,6 +518,7 @@ def download_faults(size, modes=('error', 'crash')):
         out.append({'site': 'write', 'index': k, 'prefix': prefix, 'mode': mode})
   for o in sorted(x for x in offs if x < size):
     out.append({'site': 'net', 'kind': 'eof', 'byte': o, 'mode': 'error'})
+    out.append({'site': 'net', 'kind': 'eof', 'byte': o, 'mode': 'error', 'lenient': True})
   # the disk fills up after `byte` bytes of the downloaded file
   for o in sorted(x for x in offs if x < size):
     out.append({'site': 'disk_full', 'byte': o, 'mode': 'error'})
@@ -587,6 +592,8 @@ def fault_strategy(draw, size, unit, kind, allow_hard):
     if f['kind'] == 'eof':
       if f['byte'] >= size:
         f['kind'] = 'reset'
+      elif draw(st.booleans()):
+        f['lenient'] = True
       mode = 'error'
     f['mode'] = mode
   elif site == 'write':
@@ -689,6 +696,13 @@ def run_decompress(case):
       else:
         extra.append(f'interrupted:{status}')
       check_final(final, payload, f'after fault {i} {fault}')
+      if fault['site'] not in ('truncate', 'flip'):
+        # the downloaded file was complete and correct: whatever went wrong
+        # while its content was written out, it is still there to be reused
+        # (a later maybe_download must not have to go back to the network)
+        require(os.path.exists(src) and read_file(src) == archive,
+                'complete_downloaded_file_lost_by_interrupted_decompression',
+                f'after fault {i} {fault}: {"missing" if not os.path.exists(src) else "changed"}')
     write_archive(archive)
     complete_before = os.path.exists(final)
     plan = Plan()
